@@ -35,6 +35,9 @@ def main():
         if prefixes and not any(sid.startswith(p) for p in prefixes):
             continue
         meta = json.load(open(os.path.join(d, "meta.json")))
+        if meta.get("obsolete_since") or meta.get("not_claimed"):
+            print(sid, "skipped:", "obsolete since " + meta["obsolete_since"] if meta.get("obsolete_since") else "not claimed")
+            continue
         props = meta.get("detected_by") or [meta["property"]]
         sh("git checkout -- .", cwd=wt)
         rc, out = sh(f"git apply {os.path.join(d, 'patch.diff')}", cwd=wt)
